@@ -106,6 +106,10 @@ class WebSocketWriter:
             # operation (lock + compress + send) completes atomically.
             # Use eager_start on Python 3.12+ to avoid scheduling overhead
             loop = asyncio.get_running_loop()
+            if type(message) is not bytes:
+                # The task outlives a cancelled sender: it must not read a
+                # buffer that the caller can change after we return.
+                message = bytes(message)
             coro = self._send_compressed_frame_async_locked(message, opcode, compress)
             if sys.version_info >= (3, 12):
                 send_task = asyncio.Task(coro, loop=loop, eager_start=True)
